@@ -218,6 +218,12 @@ def _fitter_case(case):
     spec = pkg.random_spec(rng, n_models=c['M'], n_ap=1, n_wav=n)
     names = ['F%d' % j for j in range(n)]
     ext = pkg.simple_extinction(power=c['power'])
+    if c.get('law_unit') == 'AA':
+        from sedfitter.extinction import Extinction
+        e2 = Extinction()
+        e2.wav = ext.wav.to(u.AA)
+        e2.chi = ext.chi.to(u.m ** 2 / u.kg)
+        ext = e2
     src = pkg.make_source('src', c['valid'], c['flux'], c['error'])
     with pkg.scratch() as d:
         _build_conv_package(d, spec, names, spec.wav, range(n))
@@ -225,7 +231,8 @@ def _fitter_case(case):
             fitter = Fitter(names, np.ones(n) * u.arcsec, d, extinction_law=ext, av_range=(c['lo'], c['hi']),
                             distance_range=[1., 2.] * u.kpc)
         info = fitter.fit(src)
-        k = -0.4 * np.interp(spec.wav, ext.wav.value, ext.chi.value, left=0., right=0.) / np.interp(0.55, ext.wav.value, ext.chi.value)
+        wl = ext.wav.to(u.micron).value
+        k = -0.4 * np.interp(spec.wav, wl, ext.chi.value, left=0., right=0.) / np.interp(0.55, wl, ext.chi.value)
         fl = np.asarray(fitter.models.fluxes.to(u.mJy).value, dtype=float)
         return fitter.models, fl, k, src, info
 
@@ -247,7 +254,7 @@ def _fitter_wiring(rec, seed, count):
         src = random_source(rng, n, flags)
         lo, hi = _av_range(rng, t % 3)
         case = _case(seed, 'fitter', pseed=int(rng.integers(1, 10 ** 6)), n=n, M=M, power=float(rng.uniform(-1.8, -0.8)),
-                     valid=src.valid, flux=src.flux, error=src.error, lo=lo, hi=hi)
+                     valid=src.valid, flux=src.flux, error=src.error, lo=lo, hi=hi, law_unit='AA' if t % 2 else 'micron')
         try:
             models, fl, k, s2, info = _fitter_case(case)
         except Exception as e:
@@ -360,6 +367,22 @@ def c03_one(rec, case):
         fl_off = np.where((flags == 2) | (flags == 3), 0, flags)
         _, i_off = _fit_any(mode, fluxes, wav, dist, k, pkg.make_source('src', fl_off, c['flux'], e3), lo, hi)
         ok &= rec.expect(_same_fit(i_c0, i_off), 'confidence0_equals_flag0', 'a limit with confidence 0 is not equivalent to an unused point', case)
+    # integer-valued photometry stored with an integer dtype fits like the same numbers stored as floats
+    if c.get('int_dtype'):
+        fi = np.where(np.isin(flags, (1, 2, 3)), np.maximum(np.round(np.abs(np.array(c['flux'], dtype=float)) * 100) + 2, 2), 7).astype(int)
+        ei = np.where(flags == 1, np.maximum(np.round(fi * 0.1), 1), 1).astype(int)
+        ef = ei.astype(float)
+        ef[(flags == 2) | (flags == 3)] = 0.
+        ei2 = ei.copy()
+        ei2[(flags == 2) | (flags == 3)] = 0
+        fl_i = np.where(flags == 4, 1, flags)
+        si = pkg.make_source('src', fl_i, fi.astype(float), ef)
+        sj = pkg.make_source('src', fl_i, fi.astype(float), ef)
+        sj.flux = fi
+        sj.error = ei2
+        _, a_f = _fit_any(mode, fluxes, wav, dist, k, si, lo, hi)
+        _, a_i = _fit_any(mode, fluxes, wav, dist, k, sj, lo, hi)
+        ok &= rec.expect(_same_fit(a_f, a_i, tol=1e-12), 'dtype_independent', 'the same photometry stored with an integer dtype fits differently', case)
     # (iii) flag-4 equivalence
     if any(f == 1 for f in flags):
         f4, e4, fl4 = np.array(c['flux'], dtype=float), np.array(c['error'], dtype=float), flags.copy()
@@ -398,7 +421,7 @@ def run_c03(tier, seed):
             lo, hi = _av_range(rng, count % 3)
             alt = [[float(rng.choice([-999., 0., 5.5, -3.])), float(rng.choice([-999., 0., 0.7]))] for _ in range(n)]
             case = _case(seed, 'c03', mode=mode, fluxes=fluxes, k=k, wav=wav, dist=dist, valid=list(flags), flux=src.flux,
-                         error=src.error, lo=lo, hi=hi, alt=alt)
+                         error=src.error, lo=lo, hi=hi, alt=alt, int_dtype=bool(count % 4 == 0))
             ok = c03_one(rec, case)
             rec.case(key=(flags, mode), nontrivial=any(f in (0, 9, 2, 3) for f in flags),
                      sample=dict(flags=list(flags), mode=mode, flux=jsonable(src.flux), error=jsonable(src.error)))
